@@ -212,6 +212,57 @@ func main() {
 			}
 		}
 	}
+	// Split-before-read family: the writes are flushed, then the region holding them splits behind the
+	// client's back right before a multi-key read of the flushed buffer is delivered (one deviation): the
+	// store answers EpochNotMatch, the keys have to be regrouped, and the retried read must still be a
+	// read of the transaction's own flushed writes.
+	{
+		fl, w := txnh.Op{Kind: "flush"}, txnh.Op{Kind: "flushwait"}
+		bg := txnh.Op{Kind: "bget", Keys: []string{"a", "b", "c"}}
+		sprogs := []struct {
+			name string
+			ops  []txnh.Op
+		}{
+			{"set(a);set(c);flush;wait;bget(a,b,c)", []txnh.Op{op("set", "a"), op("set", "c"), fl, w, bg}},
+			{"set(a);delete(b);set(c);flush;wait;bget(a,b,c);get(b)", []txnh.Op{op("set", "a"), op("delete", "b"), op("set", "c"), fl, w, bg, op("get", "b")}},
+			{"set(b);flush;wait;set(a);flush;wait;bget(a,b,c)", []txnh.Op{op("set", "b"), fl, w, op("set", "a"), fl, w, bg}},
+		}
+		for _, lo := range layouts[:2] {
+			for _, sp := range sprogs {
+				for _, end := range []string{"commit", "rollback"} {
+					lo, sp, end := lo, sp, end
+					pops := append(append([]txnh.Op{}, sp.ops...), txnh.Op{Kind: end})
+					name := fmt.Sprintf("unistore/%s/pipelined+split-before-read/%s;%s", lo.Name, sp.name, end)
+					mk := func() *txnh.TxnScenario {
+						sc := &txnh.TxnScenario{ID: name, NewBackend: func() txnh.Backend { return uni.New(lo.Splits) }, Keys: keys,
+							Progs: [][]txnh.Program{{{Mode: txnh.Mode{Pipelined: true}, Ops: pops}}}}
+						sc.SetupFn = func(s *txnh.TxnScenario) { common.SeedKey(s, "a", "old-a", "b", "old-b", "c", "old-c") }
+						sc.MenuFn = func(s *txnh.TxnScenario, e *sched.Event) []sched.Dev {
+							req, _ := e.Payload.(*tikvrpc.Request)
+							if e.Actor != 0 || e.Kind != sched.KRPC || req == nil || (req.Type != tikvrpc.CmdBufferBatchGet && req.Type != tikvrpc.CmdBatchGet && req.Type != tikvrpc.CmdGet) {
+								return nil
+							}
+							var ds []sched.Dev
+							for _, k := range []string{"b", "c"} {
+								k := k
+								ds = append(ds, sched.Dev{Name: "split@" + k, Kind: txnh.DevHook, Arg: func() { s.W.B.SplitAt([]byte(k)) }})
+							}
+							return ds
+						}
+						sc.CheckFn = check
+						return sc
+					}
+					specs[name] = mk
+					jobs = append(jobs, sched.Job{Name: name, Run: func(dl time.Time) sched.Report {
+						sc := mk()
+						x := &sched.Explorer{Sc: sc, B: sched.Bounds{P: 0, F: 1, Horizon: 400, EarlyTimers: false, Deadline: dl}}
+						x.Outcome = func(e *sched.Exec) string { return sc.H.Txns[0].Outcome + " " + sc.OutcomeString() }
+						return x.Explore(false)
+					}})
+				}
+			}
+		}
+	}
 	if common.HandleReplay(run, jobs, func(name string) sched.Scenario {
 		if mk, ok := specs[name]; ok {
 			return mk()
@@ -225,6 +276,7 @@ func main() {
 		Bounds: map[string]any{"program_depth_steps": depth, "preemptions": P, "flush_faults": F, "keys": keys, "layouts": []string{"1region", "split@b", "split@b,c"}},
 		Rule: "every program of <= depth steps from {set a/b/c, delete b, flush, flush+wait, get b, batch-get a,b,c} with at least one write, ending in commit or rollback, of one pipelined transaction over unistore on three layouts (flushed keys on region borders); each call is a scheduling point, so a running flush completes before or after the following calls (<= P preemptions), thorough: one flush RPC lost / its answer lost. " +
 			"Resolver family: 4 programs x 3 layouts x {commit, rollback} with one resolver event (clock past the TTL, another client reads all keys and rolls the flushed locks back through the primary) at every decision point at which a lock exists. " +
+			"Split-before-read family: 3 programs that flush and then read several keys at once, 2 layouts, a region split at b or c injected right before any read RPC of the transaction is delivered. " +
 			"Oracle: every read returns the latest program-order write (else the snapshot value); every buffered mutation reaches the store in exactly one Flush request per generation, generations strictly increase and at most one flush generation is in flight; a flush failure makes commit fail; after commit/rollback and drain every key the transaction flushed has the primary's outcome and no lock of it is left. distinct_nontrivial = distinct (outcome, flush count, read results) classes",
 		Assumptions: []string{
 			"unistore is the store (the in-repo mock implements neither Flush nor BufferBatchGet); flush and resolve-lock concurrency are set to 1",
@@ -246,7 +298,7 @@ func check(s *txnh.TxnScenario, x *sched.Exec) []sched.Violation {
 	// flush stream rules
 	lastGen := uint64(0)
 	inflight := map[uint64]bool{}
-	seen := map[string]uint64{}       // unique put value -> generation
+	seen := map[string]uint64{}        // unique put value -> generation
 	flushedIn := map[string][]uint64{} // key -> generations that carried a mutation of it
 	lost := false
 	for _, r := range log {
